@@ -274,8 +274,24 @@ func Harness_C15_invite_step() {
 	if uid == w.b {
 		other = w.a
 	}
+	// header values are whatever JSON the client sent: a string, a number, null, a list, an object, a flag, or absent
+	head := map[string]any{"webrtc": "started", "mime": "application/x-tinode-webrtc"}
+	switch verifChoose("mimeShape", 7) {
+	case 1:
+		head["mime"] = float64(42)
+	case 2:
+		head["mime"] = nil
+	case 3:
+		head["mime"] = []any{"a"}
+	case 4:
+		head["mime"] = map[string]any{"a": "b"}
+	case 5:
+		head["mime"] = true
+	case 6:
+		delete(head, "mime")
+	}
 	msg := &ClientComMessage{
-		Pub:       &MsgClientPub{Id: "c1", Topic: other.UserId(), Head: map[string]any{"webrtc": "started", "mime": "application/x-tinode-webrtc"}, Content: verifCallContent},
+		Pub:       &MsgClientPub{Id: "c1", Topic: other.UserId(), Head: head, Content: verifCallContent},
 		Id:        "c1",
 		AsUser:    uid.UserId(),
 		AuthLvl:   int(auth.LevelAuth),
